@@ -308,6 +308,34 @@ theorem range_map_getElem {α : Type} (l : List α) (d : α) : (List.range l.len
       rw [List.getElem?_eq_none_iff]; simp; omega
     rw [h1, h2]
 
+/-- `B` with the cells `[p, p + X.length)` overwritten by `X` -/
+def splice {α : Type} (B : List α) (p : Nat) (X : List α) : List α := B.take p ++ X ++ B.drop (p + X.length)
+
+theorem splice_length {α : Type} (B X : List α) (p : Nat) (h : p + X.length ≤ B.length) :
+    (splice B p X).length = B.length := by
+  unfold splice; simp; omega
+
+theorem take_splice {α : Type} (B X : List α) (p : Nat) (h : p + X.length ≤ B.length) :
+    (splice B p X).take (p + X.length) = B.take p ++ X := by
+  unfold splice
+  have hl : (B.take p ++ X).length = p + X.length := by simp; omega
+  rw [List.take_append_of_le_length (by omega), List.take_of_length_le (by omega)]
+
+theorem take_splice_before {α : Type} (B X : List α) (p : Nat) (h : p + X.length ≤ B.length) :
+    (splice B p X).take p = B.take p := by
+  unfold splice
+  have hl : (B.take p).length = p := by simp; omega
+  rw [List.append_assoc, List.take_append_of_le_length (by omega), List.take_of_length_le (by omega)]
+
+/-- copying a whole object `src` to offset `p` of `dst` -/
+theorem memcpy_whole {α : Type} (dst : Array α) (src : List α) (p : Nat) (h : p + src.length ≤ dst.size) :
+    memcpy dst (p : Int) src.toArray 0 src.length = .ok (splice dst.toList p src).toArray := by
+  have := memcpy_spec dst src.toArray p 0 src.length (by simp) h
+  simp only [Int.natCast_zero] at this
+  rw [this]
+  unfold splice
+  simp
+
 theorem getD_of_lt {α : Type} (l : List α) (d : α) (i : Nat) (h : i < l.length) : l.getD i d = l[i] := by
   simp [List.getD_eq_getElem?_getD, h]
 
